@@ -297,7 +297,7 @@ pub fn run() {{
                 fld = {"tuple": "_0", "tuple_skip": "_1"}.get(form, "a")
                 l = lit % fld if "%s" in lit else lit
                 a = arg % fld if arg else ""
-                attr = f'#[debug("{l}"{a})] '
+                attr = f'#[debug({vlib.rust_lit(l)}{a})] '
                 fa = f'&format_args!("{l}"{a})'
                 if form == "named":
                     sdecl = (f"pub struct N {{ pub a: {vty}, pub b: i32 }}\nimpl Debug for N {{ fn fmt(&self, f: &mut Formatter<'_>) -> fmt::Result {{ "
